@@ -14,6 +14,8 @@ func init() {
 
 func c06(c *q.Ctx) {
 	poolMapOwner(c)
+	metaKeysAgree(c)
+	ledgerMetaStaging(c)
 	metaCopiesDistinct(c)
 	const st = "bcs/ledger/xledger/state::"
 	const led = "bcs/ledger/xledger/ledger::"
@@ -195,5 +197,10 @@ func poolReload(c *q.Ctx) {
 		it := "i:Database.NewIteratorWithPrefix(p0.ldb,\"N\")"
 		c.Effect(lu, q.Eff{Spec: "Map.Store", Arg: 0, Glob: "i:Iterator.Key(" + it + ")[1:]", Req: []q.Cond{{Canon: "i:Iterator.Next(" + it + ")", Sense: true}, {Canon: "(nil == proto.Unmarshal(i:Iterator.Value(" + it + "),local<Transaction>))", Sense: true}}, Exact: true, Why: "every persisted pool record is loaded, under its id, with no filter: a record that is skipped leaves effects in the state that no rollback knows about", Rule: "K2"})
 		c.ArgIs(lu, "Map.Store", 2, "local<Transaction>", 1, "what is stored is the decoded record")
+		for _, ci := range q.CallsIn(lu, "Map.Store") {
+			args := ci.Common().Args
+			c.Sites++
+			c.Check(len(args) == 3 && q.FreshPerIteration(ci, args[2]), "K11", "bcs/ledger/xledger/tx::(*Tx).LoadUnconfirmedTxFromDisk", "every loaded record is decoded into its own object", c.At(ci), "an object allocated outside the loop is shared by all pool entries: every id maps to the last record decoded")
+		}
 	}
 }
